@@ -13,6 +13,14 @@ def probes(rep, thorough):
     seen = mon_probe.run(rep, thorough, pid="C04")
     # every tagged push a component can emit, sent to every class it can meet: what is not handed back is in the target
     mon_route.run(rep, thorough, pid="C04")
+    # whole models under Model.run (every third with travel-time arcs, sewers discharging into works that are often full):
+    # per node without boundary terms, what its arcs record as carried = what its stores gained / gave up
+    import net_check
+    seen.update(net_check.monitor_models(rep, "C04", 600 if thorough else 120, 8 if thorough else 5))
+    # a sewer discharging over every arc class into receivers that fill up: water sent earlier comes back inside the reply
+    # to a later push, with the quality it had then
+    import mon_duo
+    mon_duo.run(rep, thorough, "C04")
     return seen
 
 RULE = ("correspondence: random operation sequences (pushes incl. forced/dry-mass/sub-epsilon, pulls, pollutant pulls, "
